@@ -43,7 +43,9 @@ def noncollinear(pts):
 def check_curvature(ctx, mods, pts, k):
     import uts.gradient as grad
     n = len(pts)
-    x, y = pts[:, 0], pts[:, 1]
+    # the criterion is defined over the reals: the dependency's derivative routines are handed float64 values, never a
+    # wrapping integer dtype
+    x, y = np.asarray(pts[:, 0], dtype=float), np.asarray(pts[:, 1], dtype=float)
     g1, g2 = grad.cfd(x, y), grad.csd(x, y)
     kap = np.absolute(g2) / ((1.0 + g1 ** 2.0) ** 1.5)
     if not np.all(np.isfinite(kap[1:-1])):
@@ -73,7 +75,7 @@ def dfdt_step(g):
 def check_dfdt(ctx, mods, pts, k, refine):
     import uts.gradient as grad
     n = len(pts)
-    x, y = pts[:, 0], pts[:, 1]
+    x, y = np.asarray(pts[:, 0], dtype=float), np.asarray(pts[:, 1], dtype=float)
     g = grad.cfd(x, y)
     if not np.all(np.isfinite(g)):
         ctx.ood('dfdt', 'non-finite-gradient')
@@ -259,10 +261,11 @@ def slow_isodata_curve(rng):
 def cases(rng, tier, shard, nshards):
     total = META['quick_cases'] if tier == 'quick' else META['thorough_cases']
     # long curves in every tier (size-dependent fast paths, chunking, subsampling only show there)
-    for _ in range(2 if tier == 'quick' else 4):
-        det = pick(rng, ['curvature', 'dfdt', 'dfdt.get_knee', 'menger', 'lmethod.get_knee'])
+    for _j in range(3 if tier == 'quick' else 5):
+        det = pick(rng, ['curvature', 'dfdt', 'dfdt.get_knee', 'menger']) if _j else 'lmethod.get_knee'
         if det == 'lmethod.get_knee':
-            pts, meta = gen.curve(rng, nmax=1400, nmin=900, family=pick(rng, ['mrc', 'inv', 'noise', 'expdecay']))
+            # more than 1000 candidate splits
+            pts, meta = gen.curve(rng, nmax=1500, nmin=1010, family=pick(rng, ['mrc', 'inv', 'pwl', 'expdecay']))
         elif rng.random() < 0.5:
             pts, meta = gen.long_spiky(rng), {'family': 'long-spiky'}
         else:
@@ -291,6 +294,11 @@ def cases(rng, tier, shard, nshards):
         if rng.random() < 0.05:
             # byte counts against a block index as int64: squares of y differences do not fit int64
             pts, meta, lay = gen.tall_int_curve(rng, nmax=60, nmin=max(nmin, 5)), {'family': 'tall-int64'}, 'i64'
+        elif rng.random() < 0.04:
+            # bytes against microseconds as int64: products of an x difference and a y value do not fit int64
+            pts, meta, lay = gen.large_int_curve(rng, nmax=60), {'family': 'large-int64'}, 'i64'
+            if len(pts) < nmin:
+                pts = gen.large_int_curve(rng, n=12)
         if float(np.max(np.abs(pts))) > 1e15:
             pts = pts.copy()
             pts[:, 1] = pts[:, 1] / 1e4
